@@ -286,3 +286,40 @@ def hierarchies_across_modules(run):
             run.case = None
             shutil.rmtree(top, ignore_errors=True)
     core.explore(lambda: None, lambda p, out: go(p))
+
+
+SPECIAL = [
+    ('bare-annotation-assigns-nothing',
+     'class K:\n    x = 1\n    def m(self):\n        self.x: int\n        self.z: int = 3\n        return self\nobj = K()\nobj.x\n', (8, 5), [2]),
+    ('valued-annotation-is-an-instance-assignment',
+     'class K:\n    z = 1\n    def m(self):\n        self.z: int = 3\n        return self\nobj = K()\nobj.z\n', (7, 5), [4]),
+]
+OBJECT_DIAMOND = ('class B(object):\n    pass\nclass C(object):\n    def __repr__(self):\n        return "C"\n    def plain(self):\n        return 1\n'
+                  'class D(B, C):\n    pass\nobj = D()\nobj.__repr__\n', (11, 8), [4])
+
+
+@harness(['C06'], 'supp.assistant.location on obj.attr [annotations without a value; explicit object bases]',
+         bounded='3 programs: self.x: T without a value, self.z: T = v, and class D(B, C) with B(object), C(object) overriding a method of object')
+def special_lookups(run):
+    """BOUNDED: a bare annotation `self.x: T` assigns nothing (the class attribute is what Python finds); an annotated assignment does; a method of
+    `object` inherited through an explicit `(object)` base of an earlier base class does not hide the override in a later base (object is last
+    in the MRO).  Not counted as proved."""
+    import supp.assistant as A
+    import supp.project as Pj
+
+    def go(path):
+        for label, src, pos, want in SPECIAL + [('object-base-is-last-in-the-mro',) + OBJECT_DIAMOND]:
+            ns = {}
+            exec(compile(src.rsplit('\n', 2)[0] + '\n', '<c06>', 'exec'), ns)
+            try:
+                loc = A.location(Pj.Project(['/nonexistent']), src, pos)
+                got = [l['loc'][0] for l in loc if isinstance(l, dict)]
+            except Exception as e:
+                got = '<raised %s>' % type(e).__name__
+            if got != want:
+                core.RUN.concretise = lambda model, ob, src=src, pos=pos, want=want: {'input': src, 'script': REPLAY % {
+                    'repo': core.REPO, 'text': src, 'call': 'location(p, text, %r)' % (pos,), 'mro': 'see the text', 'want': 'line %r' % want,
+                    'why': 'go-to-definition does not land on the definition Python selects'}}
+            prove(label, got == want, clause='location lands on line %r [got %r]\n%s' % (want, got, src), path=path)
+            core.RUN.concretise = None
+    core.explore(lambda: None, lambda p, out: go(p))
